@@ -210,6 +210,53 @@ def w_filter(case):
                 viol.append({'sub': 'split', 'message': 'splitting the time points '
                              'over a composed filter changes the value (%s)' % lab,
                              'expected': base, 'observed': g, 'behaviour': 'split'})
+    # whole-number simulated measurements handed over as an integer array
+    sim_i = np.zeros(sim.shape, dtype=int)
+    for t_ in range(sim_i.shape[2]):
+        for r_ in range(sim_i.shape[1]):
+            # (whole numbers in the order of the original values, pairwise distinct
+            # within a cell, around the cell's measurements)
+            rank = np.argsort(np.argsort(sim[:, r_, t_]))
+            centre = int(round(float(np.nanmean(y[:, r_, t_]))))
+            sim_i[:, r_, t_] = max(1, centre - 2) + 2 * rank + (r_ + t_) % 2
+    e_i = expected(y, sim_i.astype(float))
+    if np.isfinite(e_i):
+        g_i = f.compute_log_likelihood(sim_i.copy())
+        s_i, se_i = f.compute_sensitivities(sim_i.copy())
+        eg_i = cstep.grad(lambda z: rf.composed_total(blocks, y, z),
+                          sim_i.astype(float))
+        sc_i = max(1.0, float(np.max(np.abs(eg_i[np.isfinite(eg_i)]), initial=0.0)))
+        ntr += 2
+        if not tol.close(g_i, e_i) or not tol.close(s_i, e_i) or not tol.allclose(
+                np.asarray(se_i, dtype=float), eg_i, 1e-7, 1e-9 * sc_i):
+            viol.append({'sub': 'int_sim', 'message': 'value / sensitivities for '
+                         'whole-number simulated measurements in an integer array '
+                         'differ from the documented density and its derivatives '
+                         '(%s)' % lab, 'expected': [e_i, eg_i],
+                         'observed': [g_i, se_i], 'behaviour': 'int_sim'})
+    # the filter object given to a log-posterior (unsorted times) is the caller's:
+    # it keeps giving the documented value
+    if T >= 2 and not case.get('no_posterior'):
+        import pints
+        from ..gen.toymodel import ToyModel
+        n_obs_ = y.shape[1]
+        pop_ = chi.GaussianModel(n_dim=2)
+        prior_ = pints.ComposedLogPrior(*[pints.UniformLogPrior(0, 5)
+                                          for _ in range(4)])
+        times_ = [0.5 + 0.7 * k_ for k_ in range(T)][::-1]
+        try:
+            chi.PopulationFilterLogPosterior(
+                f, times_, ToyModel(2, n_obs_), pop_, prior_,
+                sigma=[0.3] * n_obs_, n_samples=sim.shape[0])
+            after = f.compute_log_likelihood(sim.copy())
+        except Exception as e:      # construction is C13's subject
+            after = got
+        ntr += 2
+        if not tol.close(after, got):
+            viol.append({'sub': 'filter_kept', 'message': 'building a log-posterior '
+                         'with unsorted times from a filter changed the filter the '
+                         'caller holds (%s)' % lab, 'expected': got,
+                         'observed': after, 'behaviour': 'filter_kept'})
     # a composition inside a composition, the inner one re-sorted before it is
     # wrapped: its remembered order travels with it
     if composed and len(blocks) >= 2:
